@@ -122,6 +122,7 @@ pub struct Monitor {
     /// registered cells: address -> (raw word, weak?)
     pub cells: HashMap<usize, (usize, bool)>,
     pub canon: HashMap<usize, u32>,
+    pub canon_next: u32,
     pub clock: u64,
     pub hash: u64,
     pub outcome: u64,
@@ -193,6 +194,7 @@ impl Monitor {
             by_node: HashMap::new(),
             cells: HashMap::new(),
             canon: HashMap::new(),
+            canon_next: 0,
             clock: 0,
             hash: 0xcbf29ce484222325,
             outcome: 0xcbf29ce484222325,
@@ -242,8 +244,17 @@ impl Monitor {
         if addr == 0 {
             return 0;
         }
-        let n = self.canon.len() as u32 + 1;
-        *self.canon.entry(addr).or_insert(n)
+        if let Some(&n) = self.canon.get(&addr) {
+            return n;
+        }
+        self.canon_next += 1;
+        let n = self.canon_next;
+        self.canon.insert(addr, n);
+        n
+    }
+
+    pub fn canon_of(&mut self, addr: usize) -> u32 {
+        self.canon(addr)
     }
 
     pub fn log(&mut self, s: impl FnOnce() -> String) {
@@ -496,6 +507,10 @@ impl Monitor {
                 self.log(|| format!("bag-expired e={}", epoch));
             }
             Event::Registered { local } => {
+                // a new participant gets a new identity even if the allocator reuses the address
+                // of one that has been reclaimed earlier in this execution (which depends on when
+                // exited OS threads give their memory back, i.e. not on the schedule)
+                self.canon.remove(&local);
                 let l = self.canon(local);
                 self.mix(0x26 ^ ((l as u64) << 8));
                 self.locals.insert(local, None);
